@@ -20,6 +20,10 @@ MODEL_FILES = ['MaltModel/Analysis/TypeInf.lean', 'MaltModel/Analysis/TypeInfSem
 KNOWN_CLASSES = R.CLASS_ORDER
 
 
+class TooManyTimeouts(Exception):
+    pass
+
+
 def namespace():
     ns = {}
     exec(G.PRELUDE, ns)
@@ -105,6 +109,14 @@ def oracle(run, prog, an, tlog, clog, taint):
 def one_program(run, prog, ns, stats, want_cls=None):
     try:
         an = analyse(prog.source, prog.arg_types, ns)
+    except R.AnalysisTimeout:
+        stats['timeout'] = stats.get('timeout', 0) + 1
+        run.fail('the real analysis did not reach a fixed point within 20 s',
+                 {'program': prog.source, 'inputs': [list(i) for i in prog.inputs], 'key': prog.key,
+                  'arg_types': {k[1]: sorted(v) for k, v in prog.arg_types.items()}}, None)
+        if stats['timeout'] >= 3:
+            raise TooManyTimeouts()
+        return None
     except R.Unsupported as e:
         stats['unsupported'] = stats.get('unsupported', 0) + 1
         run.fail('the real analysis raised on a generated program: %s' % e,
@@ -298,27 +310,30 @@ def check(run, only=None):
     if only is not None:
         progs = [(only, None)]
     wit_ok = {}
-    for prog, cls in progs:
-        before = len(run.failing)
-        r = one_program(run, prog, ns, stats)
-        if r is not None:
-            items.append((prog, r[0], r[1], r[2]))
-        if cls is not None:
-            got = run.failing[before:]
-            wit_ok[prog.key] = bool(got) and all(f['cls'] == cls for f in got)
-    if wit_ok:
-        run.cov['known_finding_witnesses_still_fail'] = wit_ok
     n = 0
-    if only is None:
-        n = 150 if quick else 1500
-        for prog in G.generate(run.rng, n, size=8 if quick else 10):
+    try:
+        for prog, cls in progs:
+            before = len(run.failing)
             r = one_program(run, prog, ns, stats)
             if r is not None:
                 items.append((prog, r[0], r[1], r[2]))
-                if len(run.samples) < 2 and r[3]['checked'] > 20:
-                    run.sample({'program': prog.source, 'inputs': [list(i) for i in prog.inputs], 'profile': prog.profile,
-                                'annotated_occurrences_checked': r[3]['checked'], 'untainted': r[3]['checked_untainted'],
-                                'tainted_names': {an_fi.fdef.name: sorted(r[1].get(an_fi.def_id, {})) for an_fi in r[0].fns}})
+            if cls is not None:
+                got = run.failing[before:]
+                wit_ok[prog.key] = bool(got) and all(f['cls'] == cls for f in got)
+        if wit_ok:
+            run.cov['known_finding_witnesses_still_fail'] = wit_ok
+        if only is None:
+            n = 150 if quick else 1500
+            for prog in G.generate(run.rng, n, size=8 if quick else 10):
+                r = one_program(run, prog, ns, stats)
+                if r is not None:
+                    items.append((prog, r[0], r[1], r[2]))
+                    if len(run.samples) < 2 and r[3]['checked'] > 20:
+                        run.sample({'program': prog.source, 'inputs': [list(i) for i in prog.inputs], 'profile': prog.profile,
+                                    'annotated_occurrences_checked': r[3]['checked'], 'untainted': r[3]['checked_untainted'],
+                                    'tainted_names': {an_fi.fdef.name: sorted(r[1].get(an_fi.def_id, {})) for an_fi in r[0].fns}})
+    except TooManyTimeouts:
+        run.notes.append('stopped generating: the real analysis timed out on 3 programs')
     if run.driver_ok:
         jobs = lean_jobs(items)
         rounds = drive_with_misses(run, jobs, _analyze_line, 'res')
